@@ -76,8 +76,7 @@ Record unmarshal_case := UnmarshalCase {
 Definition check_unmarshal (c : unmarshal_case) : bool :=
   let ts := uc_tokens c in
   match unm (pf_lookup (uc_floats c)) (2000 + 4 * length ts) (uc_opts c) (uc_reg c) (uc_ty c) (uc_cur c) ts, uc_obs c with
-  | Ok (v, []), UOk v' => gval_eqb v v'
-  | Ok (_, _ :: _), UOk _ => false        (* Copy would go on feeding a nil sink: extra tokens are simply not consumed *)
+  | Ok (v, _), UOk v' => gval_eqb v v'   (* Copy stops as soon as the sink has returned nil: tokens behind the value stay unread *)
   | Err e, UErr e' => eclass_eqb e e'
   | _, _ => false
   end.
